@@ -71,3 +71,8 @@ PROPS["C14"] = dict(pkg="c14", shards=16, level="exploration",
     technique="property-based testing (rapid) over generated scope trees with colliding IDs and namespaces; oracles = link-state model per ApplyNamespace step, reference interpreter with lexical resolution, and the metamorphic relation 'inlining references does not change behaviour'",
     level_text="Exploration: generated worlds (nested scopes with colliding object IDs of different shapes, references under properties/lists/maps/one-of, up to two external namespaces applied in a generated order, recursive objects) with valid, mutated and deeply recursive inputs; link state checked after every namespace application, behaviour compared with the lexical reference resolver and with the reference-free (inlined) schema.",
     level_note="Objects are map-based; every object carries a uniquely named required marker so that a mis-resolved reference changes acceptance; recursion is unrolled 3 levels for the inlined form; external scopes have no named references of their own.")
+
+PROPS["C09"] = dict(pkg="c09", shards=16, level="exploration",
+    technique="property-based testing (rapid) over generated scopes and plugin schemas; oracle = describe/rebuild/describe fixed point (directly, over CBOR and over YAML) and original-vs-rebuilt behavioural differential on generated inputs",
+    level_text="Exploration: generated scopes and whole plugin schemas using every describable feature; each is described, rebuilt (directly, after a real CBOR and a real YAML round trip), described again and compared; original and rebuilt schema are run side by side on valid and mutated inputs; every scope of a rebuilt plugin schema (including signal data scopes) must be usable as returned.",
+    level_note="Generated schemas stay inside what the meta-schema can express for content it merely stores (IDs matching idType, non-empty display strings and property names, non-empty enums, no TypedStringEnumSchema[T]); behaviour is compared by value only for schemas without struct mapping, because the struct mapping (which changes defaulting of by-value members) is not part of a description.")
